@@ -9,7 +9,8 @@
 From Coq Require Import List ZArith Bool.
 From SVC Require Import Base.AMap Base.Res Model.Types Model.Handlers Model.EndBlock Model.Step
   Proofs.Inv Proofs.CtxOps Proofs.ReachRun Proofs.StepSpecs_ctx Proofs.C10Proofs Proofs.TraceCadence
-  Proofs.GapC09 Proofs.GapC06 Proofs.GapC10.
+  Proofs.GapC09 Proofs.GapC06 Proofs.GapC10
+  Model.ParamStep Proofs.ParamChange Proofs.ReachPProps.
 Import ListNotations.
 Open Scope Z_scope.
 
@@ -431,3 +432,35 @@ Theorem C10_K3_second_batch_refuted :
            get c (ctxs s'') = Some rc'' /\ c_rep rc'' = false /\ c_counter rc'' = 2 /\ ~ I_ctx cfg s''.
 Proof. exact K3.K3_second_batch_refuted. Qed.
 Print Assumptions C10_K3_second_batch_refuted.
+
+(* ---- governance parameter changes inside a history (Model/ParamStep.v, Proofs/ParamChange.v,
+   Proofs/ReachPProps.v) ----
+   The state-invariant statements above, with `wf_cfg cfg -> Reach cfg s` (parameters fixed along
+   the history) replaced by `ReachP cfg s`: initial state; operations under the parameters in
+   force; changes to a well-formed parameter set that does not raise the minimum-deposit terms
+   nor lower the maximum request timeout (tax, slash fraction, arbitration and complaint periods
+   change freely).  cfg is the parameter set in force in s.  Same conclusions. *)
+
+Theorem C10_oneshot_le_1_param_changes :
+  forall cfg s, ReachP cfg s -> forall c rc,
+  get c (ctxs s) = Some rc -> c_rep rc = false ->
+  (c_counter rc = 0 /\ has c (expq_h s) = false)
+  \/ (c_counter rc = 1 /\ c_state rc = Running /\ has c (expq_h s) = true).
+Proof. exact ReachPProps.oneshot_le_1_P. Qed.
+Print Assumptions C10_oneshot_le_1_param_changes.
+
+Theorem C10_total_bound_param_changes :
+  forall cfg s, ReachP cfg s -> forall c rc,
+  get c (ctxs s) = Some rc ->
+  c_rep rc = true -> 0 < c_total rc -> 0 <= c_counter rc <= c_total rc.
+Proof. exact ReachPProps.total_bound_P. Qed.
+Print Assumptions C10_total_bound_param_changes.
+
+Theorem C10_first_batch_inv_param_changes :
+  forall cfg s, ReachP cfg s -> forall c rc,
+  get c (ctxs s) = Some rc -> c_counter rc = 0 ->
+  get c (expq_h s) = None
+  /\ (c_state rc = Running ->
+        exists h, get c (newq_h s) = Some h /\ In (h, c) (newq s) /\ height s <= h).
+Proof. exact ReachPProps.first_batch_inv_P. Qed.
+Print Assumptions C10_first_batch_inv_param_changes.
